@@ -6,7 +6,7 @@ D=$(cd "${1:-$V/seeded/neutral}" && pwd)
 T=$(mktemp -d /tmp/neutral_extract.XXXXXX)
 trap 'rm -rf "$T"' EXIT
 for p in "$D"/N*.diff; do
-  rm -rf "$T/r" "$T/out"; mkdir -p "$T/r"; cp -r /repo/telingo "$T/r/"
+  rm -rf "$T/r" "$T/out"; mkdir -p "$T/r"; git -C /repo archive HEAD telingo | tar x -C "$T/r"
   (cd "$T/r" && patch -p1 -s < "$p") || { echo "$(basename $p): patch failed"; continue; }
   out=$(TELINGO_REPO="$T/r" python3 "$V/tools/extract.py" "$T/out" 2>&1 | grep -v "^extract: ok" | head -5)
   n=$(diff -r "$T/out" "$V/lean/TelModel/Generated" 2>/dev/null | grep -c '^[<>]')
